@@ -1926,6 +1926,13 @@ func (p *balloons) allocMem(c cache.Container, mems idset.IDSet, types libmem.Ty
 	}
 
 	if err != nil {
+		if assigned, ok := p.memAllocator.AssignedZone(c.GetID()); ok {
+			// a failed re-allocation leaves the existing allocation intact: keep the
+			// container pinned to what the allocator accounts for it
+			log.Error("allocMem: keeping %s, failed to reallocate memory for %s: %v",
+				assigned, c.PrettyName(), err)
+			return assigned
+		}
 		log.Error("allocMem: falling back to %s, failed to allocate memory for %s: %v",
 			nodes, c.PrettyName(), err)
 		return nodes
